@@ -99,8 +99,14 @@ def gen_merge(r, n=None, corpus=None):
                 res["arrays"] = [[k, base[sl[k][0]:sl[k][0] + sl[k][1]] if k in alias_keys else a] for k, a in res["arrays"]]
                 res["alias"] = {"mode": "views", "base": base, "slices": sl}
         results.append(res)
+    # clones: every result an identical copy of the first one (same info, statistics, arrays) — the only difference a key
+    # mutation can then make is the key set itself (shortcuts that compare results for equality must not hide it)
+    clones = n >= 2 and r.random() < 0.12
+    if clones:
+        import copy as _copy
+        results = [_copy.deepcopy({k: v for k, v in results[0].items() if k != "alias"}) for _ in range(n)]
     keymut = None
-    if n >= 2 and r.random() < 0.2:
+    if n >= 2 and r.random() < (0.7 if clones else 0.2):
         i = r.randrange(n)
         which = r.choice(["stats", "arrays"]) if akeys else "stats"
         kind = r.choice(["add", "drop", "rename"])
@@ -113,7 +119,7 @@ def gen_merge(r, n=None, corpus=None):
             d[r.randrange(len(d))][0] = "renamed"
         keymut = [i, which, kind]
     return {"kind": "merge", "grid": grid, "mode": mode, "permuted": permute, "keymut": keymut, "results": results,
-            "aliasing": alias_mode}
+            "aliasing": None if clones else alias_mode, "clones": clones}
 
 
 def gen_filespec(r, tag):
@@ -173,6 +179,17 @@ def gen_cases(ctx):
         {"info": {"est_name": "b"}, "stats": [["rmse", 2.0]], "arrays": [["e", [3.0]]]},
         {"info": {"est_name": "c"}, "stats": [["rmse", 6.0]], "arrays": [["e", [4.0, 5.0, 6.0]]]}]}
     yield {"kind": "merge", "grid": True, "corpus": "none", "results": []}
+    # identical results whose key sets differ (extra array key in the later ones; first result without arrays): refused
+    same = {"info": {"est_name": "a"}, "stats": [["rmse", 1.0], ["mean", 0.5]]}
+    yield {"kind": "merge", "grid": True, "corpus": "clone-extra-array-later", "results": [
+        dict(same, arrays=[["e", [1.0, 2.0]]]), dict(same, arrays=[["e", [1.0, 2.0]], ["t", [0.0, 1.0]]]),
+        dict(same, arrays=[["e", [1.0, 2.0]], ["t", [0.0, 1.0]]])]}
+    yield {"kind": "merge", "grid": True, "corpus": "clone-first-without-arrays", "results": [
+        dict(same, arrays=[]), dict(same, arrays=[["e", [1.0, 2.0]]])]}
+    yield {"kind": "merge", "grid": True, "corpus": "clone-extra-stat-later", "results": [
+        dict(same, arrays=[["e", [1.0]]]), dict(same, stats=same["stats"] + [["max", 2.0]], arrays=[["e", [1.0]]])]}
+    yield {"kind": "merge", "grid": True, "corpus": "clones-equal-keys", "results": [
+        dict(same, arrays=[["e", [1.0, 2.0]]]), dict(same, arrays=[["e", [1.0, 2.0]]]), dict(same, arrays=[["e", [1.0, 2.0]]])]}
     yield {"kind": "merge", "grid": True, "corpus": "C13-4", "aliasing": "same", "results": [
         {"info": {"est_name": "a"}, "stats": [["rmse", 1.0]], "arrays": [["a", [1.0, 2.0]], ["b", [1.0, 2.0]]],
          "alias": {"mode": "same", "keys": ["a", "b"]}},
